@@ -97,7 +97,16 @@ def case_valid(draw):
     p = draw(params_valid())
     n = draw(st.integers(1, 30))
     sats = [draw(sat_record(p)) for _ in range(n)]
-    return {"kind": "valid", "params": p, "sats": sats, "container": draw(st.sampled_from(["ndarray", "recarray"]))}
+    return {
+        "kind": "valid",
+        "params": p,
+        "sats": sats,
+        "container": draw(st.sampled_from(["ndarray", "recarray"])),
+        # the records are identified by field NAME: the order in which the fields are stored (So, Sg, Sw is the order of
+        # the function's own docstring) and their float width must not matter
+        "field_order": draw(st.sampled_from([[0, 1, 2], [0, 1, 2], [0, 2, 1], [1, 0, 2], [2, 1, 0], [1, 2, 0], [2, 0, 1]])),
+        "rec_dtype": draw(st.sampled_from(["f8", "f8", "f8", "f8", "f4"])),
+    }
 
 
 @st.composite
@@ -149,16 +158,20 @@ def strategy(tier):
 # --------------------------------------------------------------------------------------------------
 
 
-def _records(sats, container):
-    arr = np.array([tuple(s) for s in sats], dtype=[("So", "f8"), ("Sw", "f8"), ("Sg", "f8")])
+def _records(sats, container, field_order=(0, 1, 2), rec_dtype="f8"):
+    names = ("So", "Sw", "Sg")
+    order = [names[i] for i in field_order]
+    arr = np.zeros(len(sats), dtype=[(nm, rec_dtype) for nm in order])
+    for j, nm in enumerate(names):
+        arr[nm] = [s[j] for s in sats]
     if container == "recarray":
         import pandas as pd
 
-        return pd.DataFrame({"So": arr["So"], "Sw": arr["Sw"], "Sg": arr["Sg"]}).to_records(index=False)
+        return pd.DataFrame({nm: arr[nm] for nm in order}).to_records(index=False)
     return arr
 
 
-def _check_values(res, p, So, Sw, Sg, kr, tag):
+def _check_values(res, p, So, Sw, Sg, kr, tag, rel=1e-12, tiny=0.0):
     """Range / zero-below-residual / monotone oracles on arrays of saturations and permeabilities."""
     sat = {"So": np.asarray(So, float), "Sw": np.asarray(Sw, float), "Sg": np.asarray(Sg, float)}
     for sname, rname, _nname, kname, col in PHASES:
@@ -169,8 +182,8 @@ def _check_values(res, p, So, Sw, Sg, kr, tag):
             i = int(np.flatnonzero(~np.isfinite(k))[0])
             res.bad(f"C14/finite{tag}", f"{col}={k[i]} at {sname}={s[i]!r} residual={p[rname]!r} params={p}")
             continue
-        if np.any(k < 0) or np.any(k > kmax * (1 + 1e-12)):
-            i = int(np.flatnonzero((k < 0) | (k > kmax * (1 + 1e-12)))[0])
+        if np.any(k < 0) or np.any(k > kmax * (1 + rel) + tiny):
+            i = int(np.flatnonzero((k < 0) | (k > kmax * (1 + rel) + tiny))[0])
             res.bad(f"C14/range{tag}", f"{col}={k[i]!r} outside [0, {kmax!r}] at {sname}={s[i]!r}")
         below = s <= p[rname]
         if np.any(k[below] != 0):
@@ -179,7 +192,7 @@ def _check_values(res, p, So, Sw, Sg, kr, tag):
         order = np.argsort(s, kind="stable")
         ks = k[order]
         drop = ks[:-1] - ks[1:]
-        if drop.size and np.any(drop > 1e-12 * max(kmax, 1e-300)):
+        if drop.size and np.any(drop > rel * max(kmax, 1e-300) + tiny):
             i = int(np.argmax(drop))
             res.bad(
                 f"C14/monotone{tag}",
@@ -201,13 +214,16 @@ def check_case(case) -> Result:
     res.labels["nonzero_residual"] = nonzero_res
 
     if kind in ("valid", "invalid-param", "invalid-sat"):
-        recs = _records(case["sats"], case["container"])
+        recs = _records(case["sats"], case["container"], case.get("field_order", (0, 1, 2)), case.get("rec_dtype", "f8"))
+        res.labels["field_order"] = "".join("owg"[i] for i in case.get("field_order", (0, 1, 2)))
+        res.labels["rec_dtype"] = case.get("rec_dtype", "f8")
         if kind == "valid":
             kr = lib("relative_permeabilities", relative_permeabilities, recs, params)
             if getattr(kr, "shape", None) != (len(case["sats"]),):
                 res.bad("C14/shape", f"result shape {getattr(kr, 'shape', None)} for {len(case['sats'])} records")
                 return res
-            _check_values(res, p, recs["So"], recs["Sw"], recs["Sg"], kr, "")
+            # single-precision records: the end point itself is rounded to float32 (4 eps32 relative)
+            _check_values(res, p, recs["So"], recs["Sw"], recs["Sg"], kr, "", rel=1e-12 if case.get("rec_dtype", "f8") == "f8" else 5e-7, tiny=0.0 if case.get("rec_dtype", "f8") == "f8" else 1e-37)
             denom = 1 - p["S_or"] - p["S_wc"] - p["S_gc"]
             norm = np.array(
                 [[(s[0] - p["S_or"]) / denom, (s[1] - p["S_wc"]) / denom, (s[2] - p["S_gc"]) / denom] for s in case["sats"]]
